@@ -79,6 +79,17 @@ CHECKS = {
              "steps), minimum-error mode, 3 cost bounds; PySAT assumed complete.",
         technique="SMT/QBF model-set equivalence (z3) between the CNF generated by the real code and an independent specification",
         design="5/C08"),
+    'C09': dict(
+        text="The real legaliser builds its constraint system for each netlist of the family (GEKKO objects only, no solve); every "
+             "model variable is then assigned a symbolic real and the real Equation.is_equation_met of every equation (groups Area, "
+             "Inter, Fix, Bounds, Shapes, Attach, Intra) is summarised into a z3 formula over the configuration. z3 proves: a "
+             "configuration legal with margin satisfies every equation; a configuration violating one legality clause by a clear "
+             "margin falsifies an equation of the responsible group; the netlist's own legal configuration satisfies all "
+             "equations. Legality is an independent predicate (inside die, aspect ratio, area, attachment within extent, order, "
+             "no inter-module overlap, congruence of hard modules, fixed in place).",
+        note="11 concrete netlist structures x symbolic configurations; tolerance 1e-6 after the annealed slack reached 0; the "
+             "smoothed no-overlap equation is handled by stated cuts on the real smax; netlist constants are concrete.",
+        design="5/C09"),
     'C03': dict(
         text="Bounded symbolic model checking of the real create_initial_allocation (Die, Netlist, create_squares, fixed-rectangle "
              "detection, overlap ratios, Allocation constructor) with module rectangle positions/widths symbolic: z3 proves for every "
